@@ -84,14 +84,14 @@ def wfClause (a : Attribute) : Option String :=
     | none =>
         -- unrecognised: only optional transitive ones are kept, as an opaque value
         match a.data with
-        | .opaque bs =>
+        | .raw bs =>
             need (a.flags / 128 % 2 == 1 && a.flags / 64 % 2 == 1 && isBytes bs)
               "unrecognised-attribute-not-optional-transitive" none
         | _ => some "unrecognised-attribute-not-opaque"
     | some cls =>
         need (flagsOk cls a.flags) "flag-class-wrong" <|
           match a.data with
-          | .opaque _ => some "recognised-attribute-opaque"
+          | .raw _ => some "recognised-attribute-opaque"
           | .val v => valClause a.code v
           | .bin bs => binClause a.code bs
 
